@@ -86,6 +86,24 @@ func init() {
 	l("strconv.ParseInt", inParseInt)
 	l("strconv.ParseFloat", inParseFloat)
 	l("strconv.Itoa", func(fr *frame, a []value) value { return sprintf("%d", []value{iface{types.Typ[types.Int], a[0]}}) })
+	l("strconv.FormatFloat", func(fr *frame, a []value) value {
+		f, ok1 := a[0].(float64)
+		fmtc, ok2 := a[1].(uint8)
+		prec, ok3 := a[2].(int)
+		bits, ok4 := a[3].(int)
+		if !(ok1 && ok2 && ok3 && ok4) {
+			panic(outOfReach{"strconv.FormatFloat of a symbolic value"})
+		}
+		return strconv.FormatFloat(f, fmtc, prec, bits)
+	})
+	l("strconv.FormatInt", func(fr *frame, a []value) value {
+		n, ok1 := a[0].(int64)
+		base, ok2 := a[1].(int)
+		if !(ok1 && ok2) {
+			panic(outOfReach{"strconv.FormatInt of a symbolic value"})
+		}
+		return strconv.FormatInt(n, base)
+	})
 	l("fmt.Sprintf", func(fr *frame, a []value) value { return sprintf(concreteString(a[0]), a[1].([]value)) })
 	l("fmt.Errorf", func(fr *frame, a []value) value {
 		return mkError(sprintf(concreteString(a[0]), a[1].([]value)))
